@@ -118,7 +118,7 @@ def run_case(case):
         weights = None
         if sc in ("custom", "custom_extreme"):
             span = 40 if sc == "custom" else 500
-            weights = C.scaling_weights(rng, spec.n, spec.m, span=span)
+            weights = C.scaling_weights(rng, spec.n, spec.m, span=span, degenerate=True)
             if sc == "custom":
                 weights["ow"] = int(rng.integers(-10, 11))
         try:
@@ -158,6 +158,8 @@ def run_case(case):
         bump("scaling_" + sc)
         if weights:
             bump("custom_weights_stored_as_%s" % weights.get("dtype", "int64"))
+            bump("custom_weights_rows_unscaled_objective_scaled", int(not any(weights["cw"]) and weights["ow"] != 0 and spec.m > 0))
+            bump("custom_weights_variables_unscaled", int(not any(weights["vw"])))
         bump("fmt_%s%s" % (fmt, "+dup%d" % dup if dup else ""))
         fpe = False
         # ---- structure and bounds
